@@ -201,16 +201,16 @@ Section Open.
       pose proof (sig_bytes_of_line _ _ _ _ _ _ Hp) as Hsb.
       destruct (lookup vid known name h) as [|v|] eqn:Hl; [| |discriminate].
       + destruct (mem_str l' seenU).
-        * eapply IH; eassumption.
-        * eapply IH; try eassumption. apply Forall_app. split; [assumption|].
+        * exact (IH _ _ _ _ _ n HQr Hs Hu H).
+        * refine (IH _ _ _ _ _ n HQr Hs _ H). apply Forall_app. split; [assumption|].
           constructor; [|constructor]. split; [exact Hl|].
           exists line, l'. cbn [s_name s_hash s_b64]. rewrite Hsb. split; assumption.
       + destruct (str_eqb_spec (v_name v) name) as [Hn|Hn]; cbn [negb orb] in H; [|discriminate].
         destruct (Z.eqb_spec (v_hash v) h) as [Hh|Hh]; cbn [negb] in H; [|discriminate].
         destruct (mem_nh (name, h) seen).
-        * eapply IH; eassumption.
+        * exact (IH _ _ _ _ _ n HQr Hs Hu H).
         * destruct (V (v_id v) text sig) eqn:HV; [|discriminate].
-          eapply IH; try eassumption. apply Forall_app. split; [assumption|].
+          refine (IH _ _ _ _ _ n HQr _ Hu H). apply Forall_app. split; [assumption|].
           constructor; [|constructor].
           exists v, line, l'. cbn [s_name s_hash s_b64]. rewrite Hsb. repeat split; assumption.
   Qed.
@@ -293,7 +293,7 @@ Section OpenTheorems.
     split.
     { intros j Hj. apply Hlast. rewrite app_length in Hj. cbn in Hj. lia. }
     split.
-    - intros s Hin. rewrite Forall_forall in Hs. specialize (Hs s Hin). rewrite Ht in Hs. exact Hs.
+    - intros s Hin. rewrite Forall_forall in Hs. exact (Hs s Hin).
     - intros s Hin. rewrite Forall_forall in Hu. exact (Hu s Hin).
   Qed.
 
